@@ -218,15 +218,27 @@ class System:
             if op == "update":
                 _, child, parent, m = a
                 geom = GEOM.get(child)
+                mine = np.array(MATS[m], dtype=np.float64)
                 if geom is None:
-                    g.update(child, parent, matrix=MATS[m].copy())
+                    g.update(child, parent, matrix=mine)
                 else:
-                    g.update(child, parent, matrix=MATS[m].copy(), geometry=geom)
+                    g.update(child, parent, matrix=mine, geometry=geom)
+                # the caller re-uses its buffer for the next pose: the graph holds the values it was given
+                try:
+                    mine[:3, 3] += 7.0
+                    mine[0, 0] = -3.0
+                except ValueError:
+                    pass
                 ref.update(child, parent, MATS[m], geom)
                 return None
             if op == "setitem":
                 _, child, m = a
-                g[child] = MATS[m].copy()
+                mine = np.array(MATS[m], dtype=np.float64)
+                g[child] = mine
+                try:
+                    mine[:3, 3] += 7.0
+                except ValueError:
+                    pass
                 ref.update(child, ref.base, MATS[m])
                 return None
             if op == "remove":
